@@ -66,6 +66,11 @@ func (endpoint *PairVerify) ServeHTTP(response http.ResponseWriter, request *htt
 		b := out.GetByte(pair.TagSequence)
 		switch pair.VerifyStepType(b) {
 		case pair.VerifyStepFinishResponse:
+			// Only switch to a secure session when the verification succeeded
+			if out.GetByte(pair.TagErrCode) != pair.ErrCodeNo.Byte() {
+				break
+			}
+
 			if secSession, err = crypto.NewSecureSessionFromSharedKey(ctlr.SharedKey()); err == nil {
 				log.Debug.Println("Setup secure session")
 				session.SetCryptographer(secSession)
